@@ -12,7 +12,7 @@ import vlib
 
 PID = "C16"
 SPEC, CFG, DIAG = "Tr_Proof.tla", "Tr_Proof.cfg", "Tr_Proof_diag.cfg"
-SIZES = {"quick": dict(games=48, filter_s=50, kgames=800, bound_games=1500, per=10), "thorough": dict(games=3000, filter_s=2400, kgames=30000, bound_games=40000, per=16)}
+SIZES = {"quick": dict(games=48, filter_s=50, kgames=1400, bound_games=1500, per=10), "thorough": dict(games=3000, filter_s=2400, kgames=30000, bound_games=40000, per=16)}
 
 
 def run(tier, seed):
